@@ -42,6 +42,7 @@ type BatchResult struct {
 	Runs        int              `json:"runs"`
 	Steps       int64            `json:"steps"`
 	SimTimeNS   int64            `json:"sim_time_ns"`
+	SimTimeS    float64          `json:"sim_time_s"` // the sum of the runs' simulated time (nanoseconds overflow in long batches)
 	WallS       float64          `json:"wall_s"`
 	Faults      map[string]int   `json:"faults"`
 	Probes      map[string]int   `json:"probes"`
@@ -264,6 +265,7 @@ func RunBatch(t *testing.T, bs BatchSpec) BatchResult {
 		res.Runs++
 		res.Steps += int64(r.Steps)
 		res.SimTimeNS += int64(r.SimTime)
+		res.SimTimeS += r.SimTime.Seconds()
 		res.PerFam[r.Spec.Fam]++
 		nf := 0
 		for k, v := range r.Faults {
